@@ -1,7 +1,15 @@
 package main
 
 import (
+	"bytes"
+	"encoding/json"
+	"fmt"
 	"math/rand"
+	"os"
+	"os/exec"
+	"path/filepath"
+	"regexp"
+	"sort"
 
 	"github.com/zmap/zlint/v3/lint"
 	"verif/harness/internal/corpus"
@@ -60,4 +68,69 @@ func cmdCover(args []string) {
 	}
 	ev.WriteJSON(out("cover.json"), ids)
 	ev.WriteJSON(out("summary.json"), ev.M{"objects": len(ids), "lints_judging": len(all), "covered": len(covered)})
+}
+
+// cmdFlagCensus: what the tool reports under switches this framework does not know.  The boolean flags of `zlint -h` that are
+// not among the known ones are switched on, one at a time, for a sample of corpus certificates; every (lint, status) pair
+// the tool then prints joins the status stream of C06 (a lint's name and what it reports must agree whatever mode the tool
+// is in).  Output: statuses.json.
+func cmdFlagCensus(args []string) {
+	parseFlags(args)
+	cli := os.Getenv("VERIF_CLI")
+	known := map[string]bool{"config": true, "exampleConfig": true, "excludeNames": true, "excludeSources": true, "format": true, "includeNames": true,
+		"includeSources": true, "list-lints-json": true, "list-lints-source": true, "list-profiles": true, "longSummary": true, "nameFilter": true,
+		"pretty": true, "profile": true, "summary": true, "version": true, "h": true, "help": true}
+	var hb bytes.Buffer
+	hc := exec.Command(cli, "-h")
+	hc.Stdout, hc.Stderr = &hb, &hb
+	hc.Run()
+	var unknownBool []string
+	re := regexp.MustCompile(`(?m)^\s+-([A-Za-z][A-Za-z0-9_-]*)( \S+)?\s*$`)
+	for _, m := range re.FindAllStringSubmatch(hb.String(), -1) {
+		if !known[m[1]] && m[2] == "" {
+			unknownBool = append(unknownBool, m[1])
+		}
+	}
+	statuses := map[string]bool{}
+	runs := 0
+	if len(unknownBool) > 0 {
+		c := corpus.Load()
+		work := out("work")
+		os.MkdirAll(work, 0o755)
+		label := map[string]int{"NA": 1, "NE": 2, "pass": 3, "info": 4, "warn": 5, "error": 6, "fatal": 7}
+		step := 9
+		if tier == "thorough" {
+			step = 1
+		}
+		for _, fl := range unknownBool {
+			for i := int(seed) % step; i < len(c.Certs); i += step {
+				p := filepath.Join(work, "c.pem")
+				os.WriteFile(p, pemEncode("CERTIFICATE", c.Certs[i].DER), 0o644)
+				outb, err := exec.Command(cli, "-"+fl, p).Output()
+				runs++
+				if err != nil {
+					continue
+				}
+				var res map[string]struct {
+					Result string `json:"result"`
+				}
+				if json.Unmarshal(bytes.TrimSpace(outb), &res) != nil {
+					continue
+				}
+				for name, r := range res {
+					if st, ok := label[r.Result]; ok {
+						statuses[fmt.Sprintf("%s|%d", name, st)] = true
+					}
+				}
+			}
+		}
+		os.RemoveAll(work)
+	}
+	var sl []string
+	for s := range statuses {
+		sl = append(sl, s)
+	}
+	sort.Strings(sl)
+	ev.WriteJSON(out("statuses.json"), sl)
+	ev.WriteJSON(out("summary.json"), ev.M{"unknown_boolean_flags": unknownBool, "runs": runs})
 }
